@@ -57,6 +57,7 @@ struct OBox : IOpt
 
     void *buf = nullptr;
     Opt *opt = nullptr;
+    Eigen::VectorXd pgrad;      // a gradient vector owned by the caller and kept between calls
     std::string family;
 
     OBox()
@@ -273,7 +274,15 @@ struct OBox : IOpt
         {
             const std::vector<double> xv = hx::vec(cmd["x"]);
             Eigen::VectorXd x = Eigen::Map<const Eigen::VectorXd>(xv.data(), xv.size());
-            Eigen::VectorXd g;
+            // the caller's gradient vector: fresh and empty (default), the one the last call on this handle left behind ("reuse"), or
+            // pre-sized and filled with garbage ("dirty": right size, "big": too long)
+            const std::string gout = cmd.value("gout", "fresh");
+            Eigen::VectorXd gfresh;
+            if (gout == "dirty")
+                pgrad = Eigen::VectorXd::Constant(x.size(), 7.25);
+            else if (gout == "big")
+                pgrad = Eigen::VectorXd::Constant(x.size() + 3, -7.25);
+            Eigen::VectorXd &g = (gout == "fresh") ? gfresh : pgrad;
             const CostParams P = CostParams::from(cmd.contains("costs") ? cmd["costs"] : hx::json::object());
             Recorder rec;
             const bool dorec = cmd.value("rec", false);
